@@ -71,8 +71,32 @@ def _vectors(i, quick):
     return [D.VECTORS[0]] + [D.VECTORS[(i * 5 + j) % 17 + 1] for j in range(5)]
 
 
+PAIR_MODES = [(1, 2), (3, 3), (2, 1)]
+
+
+def _pairs(wd):
+    """pattern D: TLC enumerates every pair of directives on one instruction (SubFix_pairs.cfg); complete files from the dump"""
+    r = tlc.run(os.path.join(SPEC, 'doc'), 'SubFixMC', 'SubFix_pairs.cfg', timeout=600, tag='SubFix-pairs',
+                extra=['-dump', os.path.join(wd, 'pairs')])
+    tlc.check_machinery(r, 'SubFix_pairs')
+    progs = D.dump_programs(os.path.join(wd, 'pairs.dump'), 3)
+    if len(progs) < 500:
+        raise MachineryError('SubFix_pairs: only %d complete files in the dump' % len(progs))
+    return r, progs
+
+
 def _sim_task(args):
-    progs, first, sd, wd, quick = args
+    progs, first, sd, wd, quick = args[:5]
+    if len(args) > 5:
+        import shutil
+        d = os.path.join(wd, 'q%d' % first)
+        os.makedirs(d, exist_ok=True)
+        cases = []
+        for i, prog in enumerate(progs):
+            vec = [D.VECTORS[0], D.VECTORS[(first + i) % 17 + 1]] if quick else _vectors(first + i, True)
+            cases += D.observe(prog, 'pair%d' % (first + i), 'pairs', d, i, None, PAIR_MODES, vec, html_too=False)
+        shutil.rmtree(d, ignore_errors=True)
+        return cases
     import random
     import shutil
     d = os.path.join(wd, 'w%d' % first)
@@ -149,6 +173,11 @@ def run(tier):
     pool = mp.get_context('fork').Pool(16)            # forked before the model-checking thread exists
     try:
         g2async = pool.map_async(_task, g2tasks, chunksize=1)
+        rp, pairs = _pairs(wd)
+        rep.add_tlc(rp, 'SubFix_pairs')
+        rep.model_violation(rp, 'SubFix_pairs')
+        pasync = pool.map_async(_task, [('sim', (pairs[k::nchunk], k * 10000, sd, wd, quick, 'pairs')) for k in range(nchunk)
+                                        if pairs[k::nchunk]], chunksize=1)
         th = threading.Thread(target=mc_all)
         th.start()
         # ---- C: files written by TLC
@@ -160,7 +189,7 @@ def run(tier):
         progs = progs[:nsim]
         log('C04: %d files written by TLC (%.1fs)' % (len(progs), time.time() - t0))
         tasks = [('sim', (progs[k::nchunk], k * 10000, sd, wd, quick)) for k in range(nchunk) if progs[k::nchunk]]
-        parts = pool.map(_task, tasks, chunksize=1) + g2async.get()
+        parts = pool.map(_task, tasks, chunksize=1) + g2async.get() + pasync.get()
         log('C04: tools done (%.1fs)' % (time.time() - t0))
     finally:
         pool.terminate()
@@ -230,14 +259,18 @@ def run(tier):
         lack = [D.vec_code(v) for v in D.VECTORS if not vecs_seen[(g, D.vec_code(v))]]
         if lack:
             raise MachineryError('vacuous: option vectors never run for %s: %s' % (g, lack))
-    for g in ('sim', 'g2'):
+    if cnt['pairs:claimed'] < cnt['pairs:cases'] // 2:
+        raise MachineryError('vacuous: pairs %s' % dict(cnt))
+    for g in ('sim', 'g2', 'pairs'):
         c = next(c for c in allc if c['gen'] == g)
         rep.sample({'key': c['key'], 'mode': [c['am'], c['fm']], 'skool': c['text'].split('\n')[7:30], 'bin': c['bin'], 'vecs': c['vecs']})
     rep.rule = ('sim: files written by TLC (-simulate of SubFix: <= 6 instruction lines from a token alphabet whose bytes identify '
                 'the token, @*sub/@*fix directives of all 12 flag combinations without >+ and all six kinds, with/without labels, '
                 '! removal, +/- blocks, @org, @label, @keep, @bytes, @defb/@defs/@defw, @if) x 12 skool2bin modes (9 of them '
                 'skool2asm modes) x option vectors (quick: 6 per file rotating over all 18; thorough: 18); g2: random files over '
-                'all instruction forms and operand spellings x 4 modes x 18 vectors; distinct_nontrivial = (file, mode) pairs '
+                'all instruction forms and operand spellings x 4 modes x 18 vectors; pairs: every file TLC enumerates with 0-2 '
+                'directives (12 flag combinations x with/without instruction) on the first of three instructions x 3 modes; '
+                'distinct_nontrivial = (file, mode) pairs '
                 'inside the claim (no model note of SubFix!UnclaimedNotes)')
     rep.assumptions = [
         'the reference resolver assembles every instruction of skool2asm\'s output with skoolkit.z80.Assembler (trusted through C02)',
